@@ -285,9 +285,9 @@ def r3_tiers(ctx):
             good = q == "networkx.has_path" and args == ["self.pairwise_graph", cand, other] and astx.u(b.iter) == "self.candidates" and astx.u(outer[-1].iter) == "self.candidates" \
                 and b.kind == "map" and astx.u(b.elt) == other \
                 and lits in ({f"not eq({cand}, {other})", f"truthy(nx.has_path(self.pairwise_graph, {cand}, {other}))"}, {f"not eq({other}, {cand})", f"truthy(nx.has_path(self.pairwise_graph, {cand}, {other}))"})
-    ctx.check(good, f, hp[0] if hp else f.node, "reach set of c = every other candidate reachable from c in the beats-or-ties graph", "", "reach-set computation changed")
+    ctx.check_shape(good, f, hp[0] if hp else f.node, "reach set of c = every other candidate reachable from c in the beats-or-ties graph", "", "reach-set computation changed")
     sizes = [n for n in astx.walk_own(f.node) if isinstance(n, ast.Assign) and isinstance(n.targets[0], ast.Subscript) and isinstance(n.value, ast.Call) and astx.u(n.value.func) == "len"]
-    ctx.check(len(sizes) == 1, f, sizes[0] if sizes else f.node, "tiers are keyed by reach-set size", "", "tier key is no longer len(reach set)")
+    ctx.check_shape(len(sizes) == 1, f, sizes[0] if sizes else f.node, "tiers are keyed by reach-set size", "", "tier key is no longer len(reach set)")
     # order
     rets = [n for n in astx.walk_own(f.node) if isinstance(n, ast.Return)]
     rv = rets[0].value if rets else None
@@ -300,7 +300,7 @@ def r3_tiers(ctx):
             kw = {k.arg: k.value for k in srt.keywords}
             td = astx.u(srt.args[0])
             good = astx.is_const(kw.get("reverse"), True) and "key" not in kw and astx.u(rv.elt) == f"{td}[{astx.u(rv.generators[0].target)}]" and isinstance(srt.args[0], (ast.Name, ast.Attribute))
-    ctx.check(good, f, rets[0] if rets else f.node, "tiers ordered by reach-set size, largest first", d, f"tier list is `{d}`; documented sorted(sizes, reverse=True)")
+    ctx.check_shape(good, f, rets[0] if rets else f.node, "tiers ordered by reach-set size, largest first", d, f"tier list is `{d}`; documented sorted(sizes, reverse=True)")
     # consumers of tier 0
     f = prog.find_func("PairwiseComparisonGraph.has_condorcet_winner")
     N = Normalizer(f.node, inline=True, int_atoms=lambda a: True)
